@@ -114,7 +114,7 @@ def plan_runs(ck, configs, dsets):
     names = sorted(dsets)
     mcmc = [("300", "100"), ("200", "50"), ("600", "300")]
     runs = []
-    reps = 1 if ck.tier == "quick" else 3
+    reps = 1 if ck.tier == "quick" else 2
     n = 0
     for rep in range(reps):
         for prog, report in pairs:
